@@ -445,7 +445,8 @@ func (w *World) genAddAsk(t *rapid.T, p *Profile) Op {
 			}
 		}
 	}
-	if !op.Placeholder && len(s.LiveNodes()) > 0 && pct(t, "reqnode", p.ReqNodeProb) {
+	// a required node is what the shim sets for daemon set pods: those are never members of a gang (task group)
+	if !op.Placeholder && op.TaskGroup == "" && len(s.LiveNodes()) > 0 && pct(t, "reqnode", p.ReqNodeProb) {
 		cands := s.LiveNodes()
 		if Excluded("reqnode-unschedulable") {
 			// known finding: required-node asks are bound to unschedulable nodes; keep the shape out by construction
